@@ -434,9 +434,11 @@ Handle(S, c, m, gid, pick) ==
   [] m.type = "add" ->
     \* a phase / body / id SQLite cannot bind: the INSERT (the first write) raises
     IF {m.phase, m.body, m.id} \cap BadMoods # {} THEN Boom(d, u, <<>>, "ProgrammingError") ELSE
+    \* `pick` of an add: a subscriber whose connection is in its closing handshake, so that the send
+    \* to it fails (ABSENT: none).  That subscriber misses the message; nothing else changes.
     LET d2 == AddMsg(d, a, cn.mboxId, s, m.phase, m.body, m.id, t)
         x  == d2.msgs[Len(d2.msgs)]
-        ls == SetToSeq(Listeners(S.conn, a, cn.mboxId))
+        ls == SetToSeq(Listeners(S.conn, a, cn.mboxId) \ {pick})
     IN Fin(cn, d2, u, [k \in DOMAIN ls |-> FMsg(ls[k], x, 1)], <<Snap(d2, u)>>)
   [] m.type = "close" ->
     LET i   == IF m.mailbox # ABSENT THEN m.mailbox ELSE cn.mboxId
@@ -545,6 +547,7 @@ EnabledCmd(S, e) ==
   /\ S.up /\ S.conn[e.c].up
   /\ IF NeedsGen(S, e.c, e.m) THEN e.gid # ABSENT /\ e.gid = NextGen(S) ELSE e.gid = ABSENT
   /\ IF NeedsPick(S, e.c, e.m) THEN e.pick \in AllocChoices(S.db, S.conn[e.c].app)
+     ELSE IF e.m.type = "add" THEN (e.pick = ABSENT \/ (e.pick \in Conns /\ e.pick # e.c /\ S.conn[e.pick].up))
      ELSE e.pick = ABSENT
 
 Enabled(S, e) ==
